@@ -42,3 +42,37 @@ pub unsafe extern "C" fn getrandom(buf: *mut libc::c_void, len: libc::size_t, fl
     }
     len as libc::ssize_t
 }
+
+// ---------------------------------------------------------------------------------------------
+// Wall-clock seam. std reads the wall clock through the C symbol `clock_gettime`; on an
+// invocation's OS thread CLOCK_REALTIME is the invocation's simulated time (so histories can jump
+// the clock forwards and backwards between runs), every other clock and thread goes to the kernel.
+// ---------------------------------------------------------------------------------------------
+
+thread_local! {
+    static WALL: Cell<i64> = const { Cell::new(0) };
+    static WALL_READS: Cell<u64> = const { Cell::new(0) };
+}
+
+/// Simulated wall-clock time (seconds since the epoch) for the current OS thread; 0 = real clock.
+pub fn set_thread_wall_clock(secs: i64) {
+    WALL.with(|w| w.set(secs));
+    WALL_READS.with(|c| c.set(0));
+}
+
+pub fn wall_clock_reads() -> u64 {
+    WALL_READS.with(|c| c.get())
+}
+
+#[no_mangle]
+pub unsafe extern "C" fn clock_gettime(clk: libc::clockid_t, ts: *mut libc::timespec) -> libc::c_int {
+    let sim = WALL.try_with(|w| w.get()).unwrap_or(0);
+    if sim != 0 && clk == libc::CLOCK_REALTIME && !ts.is_null() {
+        let n = WALL_READS.try_with(|c| { let v = c.get(); c.set(v + 1); v }).unwrap_or(0);
+        // time advances by a millisecond per reading
+        (*ts).tv_sec = sim + (n / 1000) as i64;
+        (*ts).tv_nsec = ((n % 1000) * 1_000_000) as i64;
+        return 0;
+    }
+    libc::syscall(libc::SYS_clock_gettime, clk, ts) as libc::c_int
+}
